@@ -1387,6 +1387,9 @@ func (e *Entry) Find(name string) *Entry {
 					}
 				}
 				e = e.RPC.Output
+			default:
+				// An rpc or action has no other children.
+				return nil
 			}
 		default:
 			_, part = getPrefix(part)
